@@ -244,11 +244,19 @@ def rule_subst(e, pairs):
         e.rewrites.append("subst %r -> %r x%d" % (frm, to, k))
 
 
-def extract_block(path, text, start_anchor, end_anchor, wrapper_head, include_end=True, tail=""):
-    """R5: statements between two anchor lines wrapped into a function."""
-    i = text.find(start_anchor)
-    if i < 0 or text.find(start_anchor, i + 1) >= 0:
-        raise ExtractionError("block start anchor %r missing or ambiguous in %s" % (start_anchor, path))
+def extract_block(path, text, start_anchor, end_anchor, wrapper_head, include_end=True, tail="", start_ordinal=None):
+    """R5: statements between two anchor lines wrapped into a function.  The start anchor must be unique, or its
+    occurrence is chosen with start_ordinal (0-based)."""
+    if start_ordinal is None:
+        i = text.find(start_anchor)
+        if i < 0 or text.find(start_anchor, i + 1) >= 0:
+            raise ExtractionError("block start anchor %r missing or ambiguous in %s" % (start_anchor, path))
+    else:
+        i = -1
+        for _ in range(start_ordinal + 1):
+            i = text.find(start_anchor, i + 1)
+            if i < 0:
+                raise ExtractionError("block start anchor %r: occurrence %d missing in %s" % (start_anchor, start_ordinal, path))
     j = text.find(end_anchor, i)
     if j < 0:
         raise ExtractionError("block end anchor %r missing in %s" % (end_anchor, path))
